@@ -571,7 +571,7 @@ func (e *engine) stepMain(it Item) bool {
 				// a slow Unlock (heartbeat already cancelled) whose lock was taken over as stale meanwhile removes the taker's lock
 				sig = "K1b-slow-unlock-destroys-takeover-lock"
 				e.fail(sig, fmt.Sprintf("contender %d, inside Unlock, removed the lock directory of contender %d, who had taken the lock over (judged stale) while the Unlock was in progress", c, y))
-			case x.api != "Unlock" && y != c && x.judged >= 0 && x.judged != e.curGen:
+			case x.api != "Unlock" && y != c && x.judged >= 0 && x.judged != e.curGen && !x.expired:
 				sig = "K2-stale-takeover-destroys-fresh-lock"
 				e.fail(sig, fmt.Sprintf("contender %d, releasing generation %d which it had judged stale, removed the fresh lock directory (generation %d) of contender %d", c, x.judged, e.curGen, y))
 			default:
